@@ -255,6 +255,16 @@ func (_this *Encoder) OnBigDecimalFloat(value *apd.Decimal) {
 		return
 	}
 
+	if value.Form == apd.Finite && value.Coeff.Sign() == 0 {
+		// Same canonical form as OnDecimalFloat and OnFloat use for zero
+		if value.Negative {
+			_this.writer.WriteZero(-1)
+		} else {
+			_this.writer.WriteZero(1)
+		}
+		return
+	}
+
 	_this.writer.WriteBigDecimalFloat(value)
 }
 
